@@ -29,6 +29,8 @@
 //!                          drop the stream
 //!   abort <r> <b>          client abort of r: make request b's arena the thread's current one (what polling anything of
 //!                          b does), drop r's response body WITHOUT polling it, then let r's pending fetches finish
+//!   amb                    observe the thread's ambient owner from outside every request (`use_context::<Tag>()` at the top
+//!                          level: what unrelated work starting from `Owner::current()` would be adopted by): `ok o=<tag|->`
 //!   end                    `drop` every remaining started request in ascending order; print observation + verdict
 //! P (no spaces):  L<id> reactive leaf closure | E<id> eager leaf (component body) | C<id> on_cleanup leaf |
 //!   V<k>(P) Provider scope k | S<g>.<pre>.<post>(P) Suspend: pre, await gate g, post, then build P |
@@ -1139,11 +1141,13 @@ struct World {
     reqs: Vec<Req>,
     known_tasks: usize,
     panicked: bool,
+    starting: bool,
+    ambient_changed: bool,
 }
 
 impl World {
     fn new() -> Self {
-        World { reqs: vec![], known_tasks: 0, panicked: false }
+        World { reqs: vec![], known_tasks: 0, panicked: false, starting: false, ambient_changed: false }
     }
 
     /// tasks spawned since the last call belong to request r
@@ -1156,13 +1160,22 @@ impl World {
     }
 
     fn guarded(&mut self, r: usize, f: impl FnOnce(&mut World)) {
+        // oracle on the thread-local itself: only `start` (`Owner::new_root`) may INSTALL an owner; every other step
+        // (task polls, stream polls, handler-side polls, gate completions, drops) leaves the ambient owner as it was or
+        // clears it (`Owner::unset`, the root dying) — in particular "no current owner" stays "no current owner"
+        let before = Owner::current().map(|o| o.debug_id());
         if catch_unwind(AssertUnwindSafe(|| f(self))).is_err() {
             self.panicked = true;
+        }
+        let after = Owner::current().map(|o| o.debug_id());
+        if !self.starting && after.is_some() && after != before {
+            self.ambient_changed = true;
         }
         self.attribute(r);
     }
 
     fn start(&mut self, r: usize) {
+        self.starting = true;
         self.guarded(r, |w| {
             let q = &mut w.reqs[r];
             let me = q.me;
@@ -1206,6 +1219,7 @@ impl World {
             }
             q.started = true;
         });
+        self.starting = false;
         self.reqs[r].acts.push(Act::Start);
     }
 
@@ -1659,6 +1673,11 @@ fn op(c: &mut Case, line: &str) -> String {
             c.w.ps(r);
             "ok".into()
         }
+        ["amb"] => {
+            // unrelated work on the thread that starts from the ambient owner: what does it find there?
+            let t = use_context::<Tag>().map(|t| format!("{}.{}", t.req, t.scope)).unwrap_or("-".into());
+            format!("ok o={t}")
+        }
         ["poll", i] => {
             let Ok(i) = i.parse::<usize>() else { return "bad-op".into() };
             c.w.poll_nth(i);
@@ -1693,6 +1712,9 @@ fn op(c: &mut Case, line: &str) -> String {
             let mut bad = vec![];
             if c.w.panicked {
                 bad.push("panic".to_string());
+            }
+            if c.w.ambient_changed {
+                bad.push("ambient-owner-installed".to_string());
             }
             let info: Vec<(u8, P, Vec<Act>, String, bool, bool, bool)> = c
                 .w
@@ -2076,7 +2098,7 @@ fn gen_exhaustive(out: &mut String, tier: &str) -> usize {
                     for slot in 0..6 {
                         let line = if mask >> slot & 1 == 1 { a.next() } else { b.next() };
                         out.push_str(&line.unwrap());
-                        out.push('\n');
+                        out.push_str("\namb\n");
                     }
                     out.push_str("end\n");
                     count += 1;
